@@ -365,6 +365,193 @@ def explore_program(prog, reckind, tier, seed, depth=None, only_history=None):
     return res, {'events': len(usable)}
 
 
+# ---------------------------------------------------------------- graphs with TWO independents of mixed kinds
+def _p_xsiny(x, y):
+    return algopy.sum(x * algopy.sin(y))
+
+
+def _p_dotxy(x, y):
+    return algopy.dot(x, y) * x[0] + algopy.sum(y * y)
+
+
+def _p_buf(x, y):
+    b = algopy.zeros(2, dtype=x * y)
+    b[0] = x[0] * y[1]
+    b[1] = b[0] * y[0]
+    b[0] = algopy.sin(b[1]) + x[1]
+    return b[0] * b[1]
+
+
+PROGS2 = {'sum(x*sin(y))': _p_xsiny, 'dot(x,y)*x0+sum(y*y)': _p_dotxy, 'buffer(x,y)': _p_buf}
+KINDS2 = [('nd', 'nd'), ('nd', 'u11'), ('u11', 'nd'), ('u11', 'u11'), ('nd', 'u21'), ('u21', 'nd'), ('u21', 'u21')]
+PTS2 = {0: (np.array([0.5, 1.25]), np.array([0.75, -0.5])), 1: (np.array([1.5, 0.25]), np.array([-1.25, 0.625]))}
+
+
+def input2(kind, base, salt):
+    if kind == 'nd':
+        return base.copy()
+    D = {'u11': 1, 'u21': 2}[kind]
+    d = np.zeros((D, 1, 2))
+    d[0, 0] = base
+    if D > 1:
+        d[1, 0] = [0.5 - salt, 0.25 + salt]
+    return UTPM(d)
+
+
+class Sys2(object):
+    def __init__(self, name):
+        Function.cgraph = None
+        self.f = PROGS2[name]
+        self.cg = CGraph()
+        self.x = Function(np.array([0.9, 1.1]))
+        self.y = Function(np.array([0.3, 0.7]))
+        self.out = self.f(self.x, self.y)
+        self.cg.trace_off()
+        self.cg.independentFunctionList = [self.x, self.y]
+        self.cg.dependentFunctionList = [self.out]
+
+
+def step2(s, ev):
+    if ev[0] == 'fwd':
+        xin = input2(ev[1], PTS2[ev[3]][0], 0.0)
+        yin = input2(ev[2], PTS2[ev[3]][1], 0.125)
+        r = s.cg.function([xin, yin])[0]
+        return np.array(r.data if isinstance(r, UTPM) else r, copy=True)
+    if ev[0] == 'rev':
+        o = s.out.x
+        ybar = UTPM(seed_of(ev[1], o.data.shape, 3))
+        before = node_values_key(s.cg)
+        s.cg.pullback([ybar])
+        res = {}
+        for nm, f in (('x', s.x), ('y', s.y)):
+            if isinstance(f.x, UTPM):
+                res[nm] = f.xbar.data.copy()
+        res['values_intact'] = node_values_key(s.cg) == before
+        return res
+    if ev[0] == 'gradient':
+        g = s.cg.gradient([PTS2[ev[1]][0].copy(), PTS2[ev[1]][1].copy()])
+        return [np.array(v, copy=True) for v in g]
+    raise ValueError(ev)
+
+
+def reference2(name, ev, cur):
+    f = PROGS2[name]
+    if ev[0] == 'fwd':
+        r = f(input2(ev[1], PTS2[ev[3]][0], 0.0), input2(ev[2], PTS2[ev[3]][1], 0.125))
+        return np.array(r.data if isinstance(r, UTPM) else r, copy=True)
+    if ev[0] == 'rev':
+        Function.cgraph = None
+        cg = CGraph()
+        xs = [Function(UTPM(c.copy()) if isinstance(c, np.ndarray) and c.ndim == 3 else c.copy()) for c in cur]
+        o = f(*xs)
+        cg.trace_off()
+        cg.independentFunctionList = xs
+        cg.dependentFunctionList = [o]
+        cg.pullback([UTPM(seed_of(ev[1], o.x.data.shape, 3))])
+        res = {}
+        for nm, fx in zip(('x', 'y'), xs):
+            if isinstance(fx.x, UTPM):
+                res[nm] = fx.xbar.data.copy()
+        return res
+    if ev[0] == 'gradient':
+        Function.cgraph = None
+        cg = CGraph()
+        xs = [Function(UTPM(PTS2[ev[1]][k].reshape(1, 1, 2).copy())) for k in (0, 1)]
+        o = f(*xs)
+        cg.trace_off()
+        cg.independentFunctionList = xs
+        cg.dependentFunctionList = [o]
+        cg.pullback([UTPM(np.ones((1, 1)))])
+        return [fx.xbar.data[0, 0].copy() for fx in xs]
+    raise ValueError(ev)
+
+
+def explore_two_inputs(name, tier, only_history=None):
+    events = [('fwd', kx, ky, pt) for (kx, ky) in KINDS2 for pt in (0, 1)] + [('rev', 'unit'), ('rev', 'dense'), ('gradient', 0), ('gradient', 1)]
+    holder = {}
+
+    def build():
+        return Sys2(name)
+
+    def cur(s):
+        out = []
+        for f in (s.x, s.y):
+            v = f.x
+            out.append(v.data.copy() if isinstance(v, UTPM) else np.array(v, copy=True))
+        return out
+
+    def enabled(s, hist):
+        if isinstance(s.out.x, UTPM):
+            return events
+        return [e for e in events if e[0] != 'rev']
+
+    def step_(s, ev):
+        holder['cur'] = cur(s)
+        return step2(s, ev)
+
+    def key(s):
+        h = hashlib.sha256()
+        bases = {}
+        for f in s.cg.functionList:
+            _feed(h, f.x, bases)
+            _feed(h, f.xbar if is_set(f.xbar) else None, bases)
+            if is_set(f.setitem):
+                _feed(h, f.setitem[1], bases)
+        h.update(repr(Function.cgraph is None).encode())
+        return h.hexdigest()
+
+    def check(hist, ev, obs, exc, s):
+        g = Function.cgraph
+        try:
+            if exc is not None:
+                try:
+                    reference2(name, ev, holder['cur'])
+                except Exception:
+                    return None        # the call fails on a fresh graph too: not a matter of history (C03 territory)
+                return {'kind': 'exception-after-history', 'error': AD.last_line(exc)}
+            exp = reference2(name, ev, holder['cur'])
+            if ev[0] == 'rev':
+                for nm in ('x', 'y'):
+                    if (nm in obs) != (nm in exp):
+                        return {'kind': 'wrong-adjoint', 'which': nm, 'reason': 'presence'}
+                    if nm in exp and not close(obs[nm], exp[nm]):
+                        return {'kind': 'wrong-adjoint', 'which': nm, 'got': obs[nm].ravel()[:4].tolist(), 'expected': exp[nm].ravel()[:4].tolist()}
+                if not obs['values_intact']:
+                    return {'kind': 'reverse-sweep-modified-forward-values'}
+                return None
+            if ev[0] == 'gradient':
+                for k in (0, 1):
+                    if not close(obs[k], exp[k]):
+                        return {'kind': 'wrong-value', 'which': 'xy'[k], 'got': np.asarray(obs[k]).tolist(), 'expected': np.asarray(exp[k]).tolist()}
+                return None
+            if not close(obs, exp):
+                return {'kind': 'wrong-value', 'got': np.asarray(obs).ravel()[:4].tolist(), 'expected': np.asarray(exp).ravel()[:4].tolist()}
+            return None
+        finally:
+            Function.cgraph = g
+    if only_history is not None:
+        res = EX.Result()
+        s = build()
+        hist = ()
+        for ev in only_history:
+            ev = tuple(ev)
+            try:
+                obs, exc = step_(s, ev), None
+            except Exception as e:
+                obs, exc = None, e
+            res.transitions += 1
+            d = check(hist, ev, obs, exc, s)
+            if d is not None:
+                res.violations.append((list(hist), ev, d))
+                break
+            hist += (ev,)
+        Function.cgraph = None
+        return res
+    res = EX.bfs(build, enabled, step_, key, 3 if tier == 'quick' else 4, check)
+    Function.cgraph = None
+    return res
+
+
 def program_set(tier):
     progs = [(p, 'd1') for p in PR.depth1()]
     progs += [(p, 'scenario:' + n) for n, p in PR.SCENARIOS.items()]
@@ -385,12 +572,30 @@ def units(tier, seed):
     for rk in rec_kinds(tier):
         for i in range(0, len(progs), CH):
             us.append({'progs': progs[i:i + CH], 'reckind': rk, 'tier': tier, 'seed': seed})
+    for name in PROGS2:
+        us.append({'two_inputs': name, 'tier': tier, 'seed': seed})
     return us
 
 
 def run_unit(unit):
     out = {'evals': 0, 'keys': [], 'counters': {}, 'fails': [], 'samples': [], 'states': 0, 'transitions': 0,
            'traces': 0, 'maxima': {}}
+    if 'two_inputs' in unit:
+        name = unit['two_inputs']
+        res = explore_two_inputs(name, unit['tier'])
+        out.update({'evals': res.transitions, 'states': res.states, 'transitions': res.transitions, 'traces': res.transitions - len(res.violations),
+                    'nontrivial': res.states, 'closed': res.closed})
+        out['counters']['two_input_programs_explored'] = 1
+        out['samples'] = [{'two_input_program': name, 'history_reaching_a_deepest_state': [list(e) for e in (res.sample or [])], 'states': res.states,
+                           'transitions': res.transitions, 'closed': res.closed}]
+        seen = set()
+        for hist, ev, d in res.violations:
+            sig = 'C06|%s|two-inputs prog=%s|ev=%s|prev=%s' % (d['kind'], name, ev[0], hist[-1][0] if hist else 'none')
+            if sig in seen:
+                continue
+            seen.add(sig)
+            out['fails'].append({'sig': sig, 'case': {'two_inputs': name, 'tier': unit['tier'], 'history': [list(e) for e in hist] + [list(ev)]}, 'detail': d})
+        return out
     closed_all = True
     any_explored = False
     for prog, origin in unit['progs']:
@@ -431,6 +636,9 @@ def run_unit(unit):
 
 
 def replay(case):
+    if 'two_inputs' in case:
+        res = explore_two_inputs(case['two_inputs'], case.get('tier', 'quick'), only_history=case['history'])
+        return [{'sig': 'C06|%s' % d['kind'], 'detail': d} for (h, e, d) in res.violations]
     res, info = explore_program(case['prog'], case['reckind'], case.get('tier', 'quick'), case.get('seed', 0),
                                 only_history=case['history'])
     if res is None:
